@@ -973,9 +973,13 @@ class _InlineNewHelpers(_InlineMethods):
                 (self.module_aliases[call.func.value.id], call.func.attr) in self.foreign:
             return self.foreign[(self.module_aliases[call.func.value.id], call.func.attr)][0], False
         if isinstance(call.func, ast.Attribute) and isinstance(call.func.value, ast.Name) and host.args.args and call.func.value.id == host.args.args[0].arg \
-                and call.func.attr in self.methods and not (host.decorator_list):
+                and call.func.attr in self.methods:
             m = self.methods[call.func.attr]
-            return m, not self._is_static(m)
+            if not host.decorator_list:
+                return m, not self._is_static(m)
+            # from a classmethod only a static helper can be reached through `cls.`
+            if len(host.decorator_list) == 1 and isinstance(host.decorator_list[0], ast.Name) and host.decorator_list[0].id == 'classmethod' and self._is_static(m):
+                return m, False
         return None
 
     def _block(self, stmts, host, methods):
@@ -991,6 +995,11 @@ class _InlineNewHelpers(_InlineMethods):
             if isinstance(st, ast.Try):
                 for h in st.handlers:
                     h.body = self._block(h.body, host, methods)
+            if isinstance(st, ast.FunctionDef) and not getattr(st, '_restored_closure', False):
+                # calls inside a nested function are expanded there
+                st.body = self._block(st.body, st, methods)
+                out.append(st)
+                continue
             if isinstance(st, (ast.FunctionDef, ast.AsyncFunctionDef, ast.ClassDef)):
                 out.append(st)
                 continue
